@@ -493,12 +493,73 @@ def check_history(case: t.Any, ctx: Ctx) -> None:
     ctx.nontrivial(modified_after_hash)
 
 
+# ---- fields that are not totally ordered -----------------------------------------------------------------------------------
+#
+# "ordering is the lexicographic order of the compare-fields": x < y iff at the first compare-field where they differ (!=) the
+# field of x is < that of y; x <= y iff there is no such field or x's is <= y's.  With totally ordered fields that is the
+# trichotomy checked above; with sets (ordered by inclusion) or NaN two values may be neither ==, < nor >, and then neither
+# instance is below the other - an implementation that derives "<" from "not >" says both are.
+
+_PO: t.Dict[str, t.Any] = {}
+_PO_VALUES = {
+    'x': [0.0, 1.0, -0.0, float('nan'), float('inf')],
+    's': [frozenset(), frozenset({1}), frozenset({2}), frozenset({1, 2})],
+    'n': [0, 1],
+}
+
+
+def _po_class(flags: t.Tuple[bool, ...]) -> t.Any:
+    import pane
+    key = repr(flags)
+    if key not in _PO:
+        ns: t.Dict[str, t.Any] = {'__annotations__': {'x': float, 's': t.FrozenSet[int], 'n': int}}
+        for (n, cmp_) in zip('xsn', flags):
+            if not cmp_:
+                ns[n] = pane.field(compare=False)
+        _PO[key] = type('PartialCls', (pane.PaneBase,), ns, order=True)
+    return _PO[key]
+
+
+@st.composite
+def po_cases(draw) -> t.Any:
+    flags = [draw(st.booleans()) or draw(st.booleans()) for _ in range(3)]
+    vals = [[draw(st.integers(0, len(_PO_VALUES[n]) - 1)) for n in 'xsn'] for _ in range(2)]
+    return [flags, vals]
+
+
+def check_partial(case: t.Any, ctx: Ctx) -> None:
+    import operator
+    (flags, vals) = case
+    cls = _po_class(tuple(flags))
+    (a, b) = (cls.make_unchecked(**{n: _PO_VALUES[n][i] for (n, i) in zip('xsn', v)}) for v in vals)
+    cmp_fields = [n for (n, f) in zip('xsn', flags) if f]
+    ctx.label(f"compare-fields:{''.join(cmp_fields) or '-'}")
+    incomparable = any(not (getattr(a, n) == getattr(b, n) or getattr(a, n) < getattr(b, n) or getattr(a, n) > getattr(b, n)) for n in cmp_fields)
+    ctx.nontrivial(incomparable)
+    for (sym, op, at_end) in (('<', operator.lt, False), ('<=', operator.le, True), ('>', operator.gt, False), ('>=', operator.ge, True)):
+        want = at_end
+        for n in cmp_fields:
+            (u, v) = (getattr(a, n), getattr(b, n))
+            if u == v:
+                continue
+            want = bool(op(u, v))
+            break
+        ctx.evaluated()
+        (k, got) = outcome(lambda: op(a, b))
+        if k != 'ok' or got is not want:
+            ctx.fail('ordering', 'lexicographic:partially-ordered-fields', f"compare-fields {cmp_fields}: {a!r} {sym} {b!r} is {got!r}, the lexicographic order "
+                     f"of the compare-fields gives {want}")
+            return
+
+
 def suites(tier: str) -> t.List[Suite]:
     big = tier == 'thorough'
     return [
         Suite('cube', check, cases=cube_cases, exhaustive=True, budget_s=300, render=render),
         Suite('generic', check_generic, cases=generic_cases, exhaustive=True, budget_s=60),
         Suite('flags', check, strategy=cases, examples=6000 if big else 400, budget_s=300 if big else 30, render=render),
+        Suite('partial-order', check_partial, strategy=po_cases, examples=3000 if big else 300, budget_s=60 if big else 10,
+              render=lambda c: {'compare flags (x: float, s: FrozenSet[int], n: int)': c[0], 'value indices': c[1]}),
         Suite('hash-history', check_history, strategy=history_cases, examples=2000 if big else 150, budget_s=120 if big else 15,
               render=lambda c: {'scenario': c[0], 'first value': c[1], 'operations': c[3]}),
     ]
